@@ -294,9 +294,12 @@ def _f(v):
 def recording_imputer(delegate, log=None, faults=None):
     """A BaseImputer subclass delegating to a real library imputer and recording (subset, n_samples, predictions)."""
     from ixai.imputer.base import BaseImputer
+    # a user-defined imputer built the usual way: by SUBCLASSING the library imputer and overriding the documented impute() hook
+    base = type(delegate) if isinstance(delegate, BaseImputer) else BaseImputer
 
-    class RecordingImputer(BaseImputer):
+    class RecordingImputer(base):
         def __init__(self, inner):
+            self.__dict__.update(getattr(inner, '__dict__', {}))      # same public attributes as the imputer it extends
             self.inner = inner
             self.calls = []
 
